@@ -3,13 +3,16 @@
    Model/CacheConc.v: one transition = one source statement of one thread (step);
    Model/CacheConcSpec.v: the regions, the guard, the invariant Inv, Safe, the full statements.
 
-   The full statements are FALSE for the unchanged code (witnesses below, found by the scheduler on
-   the real code and replayed on the model).  The partial theorems hold for every number of
-   threads, all programs and all schedules whose steps pass `guard`: operations get (hit, miss,
-   missing row, first use of the class), create, expire of a held instance, cull (triggered
-   through the counters inside get and created), forgetting a result; and not the unlocked write
-   of created() while an entry for the id exists or is in flight (a get of the same id between its
-   miss under the lock and its put).  The two expireAll are outside the proved operation set. *)
+   The full statements are FALSE for the code (one witness below, found by the scheduler on the real
+   code and replayed on the model): create || get of the id being created.  The partial theorems
+   hold for every number of threads, all programs over ALL operations of the model (get: hit, miss,
+   missing row, first use of the class; create; expire of a held instance; cull triggered through the
+   counters; CacheFactory.expireAll; sqlmeta.expireAll; forgetting a result) and all schedules whose
+   steps pass `guard`.  The guard excludes exactly one kind of step: the write of created() (line
+   "K181", under the lock) when the cache already has an entry for the new id -- which happens only
+   when a get of that id missed between the creator's INSERT and its created() and registered an
+   instance of its own.  (Two harness conventions are in the guard as well: Expire names a result
+   slot of an existing thread, Drop one of the thread itself.) *)
 From Coq Require Import List ZArith Bool Arith String.
 From Gen Require Import CacheConc.
 From Model Require Import CacheConc CacheConcSpec.
@@ -59,7 +62,9 @@ Proof. exact (@inv_full_refuted). Qed.
 Theorem C09_quiescent_full_refuted : ~ C09_quiescent_full.
 Proof. exact (@quiescent_full_refuted). Qed.
 
-(* create || get of the id being created: both threads end up holding a live instance of row 4 *)
+(* create || get of the id being created: both threads end up holding a live instance of row 4
+   (the get misses between the creator's INSERT and its created(), registers its own instance, and
+   created() then overwrites the entry under the lock) *)
 Theorem C09_created_vs_get_refuted :
   match run (init 100 2 [1%Z; 2%Z; 3%Z] [w_setup; [Create]; [Get 4%Z]]) w_get_sched with
   | Some s => all_finished_b s = true /\ two_objects s = true
@@ -67,29 +72,20 @@ Theorem C09_created_vs_get_refuted :
   end.
 Proof. exact (@created_vs_get_witness). Qed.
 
-(* create || expireAll: RuntimeError in the iteration *)
-Theorem C09_created_vs_expireall_refuted :
-  match run (init 100 2 [1%Z; 2%Z; 3%Z] [w_setup; [Create]; [XAll]]) w_xall_sched with
-  | Some s => all_finished_b s = true /\ bad_exception s = true
-  | None => False
-  end.
-Proof. exact (@created_vs_expireall_witness). Qed.
-
-(* create between expireAll's loop and `self.cache = {}`: the creator's object is lost from the cache *)
-Theorem C09_created_lost_refuted :
-  match run (init 100 2 [1%Z; 2%Z; 3%Z] [w_setup; [Create]; [XAll]]) w_lost_sched with
-  | Some s => all_finished_b s = true /\ lost_object s = true
-  | None => False
-  end.
-Proof. exact (@created_lost_witness). Qed.
-
-(* two sqlmeta.expireAll: RuntimeError in the unlocked iteration of getAll *)
-Theorem C09_getall_refuted :
-  match run (init 100 2 [1%Z; 2%Z; 3%Z] [w_setup; [MExAll]; [MExAll]]) w_mex_sched with
-  | Some s => all_finished_b s = true /\ bad_exception s = true
-  | None => False
-  end.
-Proof. exact (@getall_witness). Qed.
+(* ---- regression: the former witnesses of the findings fixed by 6765e29 (created() under the lock)
+   and 7ef2364 (getAll() under the lock) are guarded runs now and end well *)
+Example C09_regression_created_vs_expireall :
+  match grun (init 100 2 [1%Z; 2%Z; 3%Z] [w_setup; [Create]; [XAll]]) w_xall_sched with
+  | Some s => ends_well s = true | None => False end.
+Proof. vm_compute. reflexivity. Qed.
+Example C09_regression_created_lost :
+  match grun (init 100 2 [1%Z; 2%Z; 3%Z] [w_setup; [Create]; [XAll]]) w_lost_sched with
+  | Some s => ends_well s = true | None => False end.
+Proof. vm_compute. reflexivity. Qed.
+Example C09_regression_getall :
+  match grun (init 100 2 [1%Z; 2%Z; 3%Z] [w_setup; [MExAll]; [MExAll]]) w_mex_sched with
+  | Some s => ends_well s = true | None => False end.
+Proof. vm_compute. reflexivity. Qed.
 
 (* ---- non-vacuity: guarded runs that meet every hypothesis *)
 (* two threads miss the same row on first use of the class, thread 2 waits for the lock while
@@ -106,7 +102,8 @@ Proof. vm_compute. repeat split; reflexivity. Qed.
    a create in between; a get of a missing row *)
 Example C09_nonvacuous_expire_create :
   match grun (init 100 2 [1%Z; 2%Z] [[Get 1%Z]; [Expire 0 0; Get 1%Z; Get 7%Z]; [Get 1%Z; Create]])
-             (repeat 0 30 ++ repeat 2 8 ++ repeat 1 12 ++ repeat 2 11 ++ repeat 1 56) with
+             (repeat 0 30 ++ repeat 2 8 ++ repeat 1 12 ++ repeat 2 10 ++ repeat 1 3 ++ repeat 2 1 ++
+              repeat 1 12 ++ repeat 2 3 ++ repeat 1 41) with
   | Some s => all_finished_b s = true /\ negb (two_objects s) = true /\ negb (bad_exception s) = true /\
               Nat.ltb 0 (s_epoch s 1%Z) = true
   | None => False
@@ -117,15 +114,14 @@ Proof. vm_compute. repeat split; reflexivity. Qed.
    and a create that both run into a cull, interleaved *)
 Example C09_nonvacuous_cull :
   match grun (init 0 2 [1%Z; 2%Z; 3%Z] [[Get 1%Z; Get 2%Z; Get 3%Z]; [Get 1%Z]; [Create]])
-             (repeat 0 101 ++ repeat 1 12 ++ repeat 2 10 ++ repeat 1 28) with
+             (repeat 0 101 ++ repeat 1 12 ++ repeat 2 9 ++ repeat 1 28 ++ repeat 2 4) with
   | Some s => all_finished_b s = true /\ negb (two_objects s) = true /\ negb (bad_exception s) = true /\
               negb (lost_object s) = true /\ Nat.ltb 0 (List.length (s_weak s)) = true
   | None => False
   end.
 Proof. vm_compute. repeat split; reflexivity. Qed.
 
-(* a state in which nobody can run but somebody waits does not satisfy the invariant: the
-   hypothesis of C09_no_deadlock_inv is not vacuous, e.g. after a complete guarded run *)
+(* a complete guarded run: nobody is enabled and everybody has finished *)
 Example C09_nonvacuous_quiescent_disabled :
   match grun (init 100 2 [1%Z] [[Get 1%Z]; [Get 1%Z]]) (repeat 0 30 ++ repeat 1 9) with
   | Some s => forallb (fun t => negb (enabled s t)) (seq 0 (s_n s)) = true /\ all_finished_b s = true
@@ -142,6 +138,3 @@ Print Assumptions C09_no_deadlock_inv.
 Print Assumptions C09_inv_full_refuted.
 Print Assumptions C09_quiescent_full_refuted.
 Print Assumptions C09_created_vs_get_refuted.
-Print Assumptions C09_created_vs_expireall_refuted.
-Print Assumptions C09_created_lost_refuted.
-Print Assumptions C09_getall_refuted.
